@@ -309,7 +309,12 @@ pub fn oracle_c11(c: &InvCtx) -> Option<Violation> {
             }
         }
     }
-    // (iii) at most one live instance per service
+    oracle_c11_instances(c)
+}
+
+/// C11 (iii): at most one live instance per service, in one-shot and watch runs.
+pub fn oracle_c11_instances(c: &InvCtx) -> Option<Violation> {
+    let r = c.r;
     let mut by_id: BTreeMap<&str, Vec<&crate::run::ProcInst>> = BTreeMap::new();
     for p in r.procs.iter().filter(|p| p.kind == "service") {
         by_id.entry(p.id.as_str()).or_default().push(p);
@@ -437,7 +442,13 @@ impl Property for C01 {
     fn rule(&self) -> &'static str {
         "one case = generated project (all kinds, both edge spellings, aggregates nested) + request list + seeded schedule and hash order; at every script/service start the oracle requires an earlier successful exit or skip (build) or start (service) of every effective dependency. distinct_nontrivial = distinct communication/event order hashes among runs where a target with at least one dependency was started"
     }
+    fn required_probes(&self) -> Vec<&'static str> {
+        vec!["invalidated-message-decoded"]
+    }
     fn generate(&self, rng: &mut Rng, _case: u64) -> Scenario {
+        if rng.chance(35) {
+            return super::watch::gen_watch(rng, &super::watch::WatchOpts { inside_build_pct: 60, ..Default::default() });
+        }
         let mut sc = gen::gen_graph(rng, &GraphOpts { max_n: 10, ..Default::default() });
         let args = gen::gen_request(rng, &sc);
         let mut inv = standard_invocation(rng, &sc, args);
@@ -455,6 +466,16 @@ impl Property for C01 {
         sc
     }
     fn evaluate(&self, sc: &Scenario, root: &Path, stats: &mut Stats) -> Option<Violation> {
+        if sc.label.starts_with("watch-") {
+            let s = super::watch::run_session(sc, root, stats, multi_dep_started)?;
+            let n = s.r.events.iter().filter(|e| e.kind == "recv" && e.rest.contains(" Invalidated{")).count() as u64;
+            *stats.probes.entry("invalidated-message-decoded".into()).or_insert(0) += n;
+            let c = InvCtx::new(sc, &s.inv, &s.r);
+            if let Some(v) = oracle_c01a(&c) {
+                return Some(v);
+            }
+            return super::watch::oracle_c01b(sc, &s.r);
+        }
         eval_oneshot(sc, root, stats, oracle_c01a, multi_dep_started)
     }
 }
@@ -491,7 +512,11 @@ impl Property for C08 {
                 sc.steps.push(Step::Invoke(inv));
             }
         }
-        let args = gen::gen_request(rng, &sc);
+        let mut args = gen::gen_request(rng, &sc);
+        if rng.chance(30) {
+            // cleaning is confined to the closure as well
+            args.insert(0, "--clean".into());
+        }
         let inv = standard_invocation(rng, &sc, args);
         sc.steps.push(Step::Invoke(inv));
         sc
@@ -589,6 +614,9 @@ impl Property for C07 {
         "one case = generated project + request + seeded schedule + a failing subset injected through the fault plan (build exits non-zero, build killed by a signal, build or service that cannot be spawned: EAGAIN), any position in the graph. Oracle: non-zero exit naming a target that failed in this run, no transitive dependent of a failed target ever started, no stall. distinct_nontrivial = distinct order hashes among runs in which a failure was actually observed"
     }
     fn generate(&self, rng: &mut Rng, _case: u64) -> Scenario {
+        if rng.chance(30) {
+            return super::watch::gen_watch(rng, &super::watch::WatchOpts { fail_pct: 100, max_bursts: 3, ..Default::default() });
+        }
         let mut sc = gen::gen_graph(rng, &GraphOpts { max_n: 9, ..Default::default() });
         let args = gen::gen_request(rng, &sc);
         let mut inv = standard_invocation(rng, &sc, args);
@@ -614,6 +642,10 @@ impl Property for C07 {
         sc
     }
     fn evaluate(&self, sc: &Scenario, root: &Path, stats: &mut Stats) -> Option<Violation> {
+        if sc.label.starts_with("watch-") {
+            let s = super::watch::run_session(sc, root, stats, |c| !observed_failures(c).is_empty())?;
+            return super::watch::oracle_c07_watch(sc, &s);
+        }
         eval_oneshot(sc, root, stats, oracle_c07, |c| !observed_failures(c).is_empty())
     }
 }
@@ -636,6 +668,9 @@ impl Property for C11 {
         "one case = service-heavy project (services as roots, behind aggregates, as dependencies of builds) + request + seeded schedule; the termination signal is only delivered at an idle point. Oracle: zinoma returns before the signal iff no requested root stands for a service; every dependency service is running from before the dependent build's start until its end; never two live instances of one service. distinct_nontrivial = distinct order hashes among runs that started at least one service"
     }
     fn generate(&self, rng: &mut Rng, _case: u64) -> Scenario {
+        if rng.chance(30) {
+            return super::watch::gen_watch(rng, &super::watch::WatchOpts { service_bias: true, ..Default::default() });
+        }
         let mut sc = gen::gen_graph(rng, &GraphOpts { max_n: 8, ..Default::default() });
         // make services more frequent
         let n = sc.projects[0].targets.len();
@@ -663,6 +698,11 @@ impl Property for C11 {
         sc
     }
     fn evaluate(&self, sc: &Scenario, root: &Path, stats: &mut Stats) -> Option<Violation> {
+        if sc.label.starts_with("watch-") {
+            let s = super::watch::run_session(sc, root, stats, |c| c.r.procs.iter().any(|p| p.kind == "service"))?;
+            let c = InvCtx::new(sc, &s.inv, &s.r);
+            return oracle_c11_instances(&c);
+        }
         eval_oneshot(sc, root, stats, oracle_c11, |c| c.r.procs.iter().any(|p| p.kind == "service"))
     }
 }
@@ -718,7 +758,7 @@ impl Property for C17 {
     fn generate(&self, rng: &mut Rng, _case: u64) -> Scenario {
         let mut sc = gen::gen_graph(rng, &GraphOpts { max_n: 9, ..Default::default() });
         let all: Vec<Tid> = sc.all_targets();
-        let builds: Vec<Tid> = all.iter().filter(|t| model::kind_of(&sc, t) == Some(Kind::Build)).cloned().collect();
+        let builds: Vec<Tid> = all.iter().filter(|t| model::kind_of(&sc, t) != Some(Kind::Aggregate)).cloned().collect();
         // greedy antichain
         let mut cand = builds.clone();
         rng.shuffle(&mut cand);
@@ -763,6 +803,19 @@ impl Property for C17 {
         if !extra.is_empty() {
             let pos = rng.below(args.len() + 1);
             args.insert(pos, extra[0].clone());
+        }
+        if rng.chance(30) {
+            let mut agg = Target::new("allagg", Kind::Aggregate);
+            for a in &args {
+                agg.deps.push(DepRef { project: 0, target: a.clone(), via_dep: true, via_output: false, qualified: false });
+            }
+            if rng.chance(70) {
+                sc.projects[0].targets.push(Target::new("svcx", Kind::Service));
+                let pos = rng.below(agg.deps.len() + 1);
+                agg.deps.insert(pos, DepRef { project: 0, target: "svcx".into(), via_dep: true, via_output: false, qualified: false });
+            }
+            sc.projects[0].targets.push(agg);
+            args = vec!["allagg".into()];
         }
         let mut inv = standard_invocation(rng, &sc, args);
         inv.plan.gates.insert("A".into(), ids);
